@@ -35,7 +35,13 @@ def make(ftype, cost, ds="d0"):
         def lin_counts(a=2.0, b=1.0):
             return a * np.arange(1.0, 6.0) + b
         return IndexedFit(data, lin_counts, cost_function=kw["cost"])
-    fit = fl.make_fit(ftype, ds=ds, **kw)
+    if ftype == "hist":
+        # entries below and above the bin range: they count as entries (scaling of the model and of the density curve)
+        from kafe2 import HistContainer, HistFit
+        sample = list(fl.H0 if ds == "d0" else fl.H1) + [-1.0, 6.5, 7.0]
+        fit = HistFit(HistContainer(n_bins=5, bin_range=(0.0, 5.0), fill_data=sample), fl.normal_density, cost_function=kw.get("cost", "nll"))
+    else:
+        fit = fl.make_fit(ftype, ds=ds, **kw)
     if ftype in ("xy", "xyq", "indexed") and cost == "chi2":
         fl.add_source(fit, ftype, "ey1")
         if ftype == "xy":
@@ -74,7 +80,11 @@ class Sys:
                 if self.ftype == "indexed" and self.cost in POISSON:
                     f.data = [2.0, 6.0, 7.0, 11.0, 12.0] if self.n % 2 else [3.0, 5.0, 8.0, 9.0, 12.0]
                 else:
-                    f.data = fl.make_data(self.ftype, ds)
+                    if self.ftype == "hist":
+                        from kafe2 import HistContainer
+                        f.data = HistContainer(n_bins=5, bin_range=(0.0, 5.0), fill_data=list(fl.H1 if ds == "d1" else fl.H0) + [-2.0, 5.5])
+                    else:
+                        f.data = fl.make_data(self.ftype, ds)
                     if self.ftype in ("xy", "xyq", "indexed") and self.cost == "chi2":      # uncertainties declared on the data go with the data
                         fl.add_source(f, self.ftype, "ey1")
                         if self.ftype == "xy":
@@ -247,6 +257,7 @@ def check_draw(sysm, a):
     try:
       # computing asymmetric uncertainties inside plot() may move the optimum by a rounding-size step: the drawn numbers must be those the
       # fit held immediately before OR immediately after the call
+      first_bad = None
       for snaps in (after, before):
         bad = []
         for fi, fit in enumerate(snaps):
@@ -348,6 +359,10 @@ def check_draw(sysm, a):
                 bad += check_legend(fig, fits_here, 0)
         if not bad:
             break
+        if first_bad is None:
+            first_bad = bad
+      if bad:
+        bad = first_bad      # both comparisons fail: report the one against the numbers held after the call
     finally:
         plt.close("all")
         if a["xlog"]:
